@@ -19,6 +19,9 @@ type ProtoEvent struct {
 	Carried bool              `json:"carried"` // the event carries its own time
 	TMs     int64             `json:"t_ms"`
 	Unit    string            `json:"unit,omitempty"`
+	// Extra: stored column -> expected text, beyond the protocol's mapping of Fields/Msg/Code (OTLP: resource and
+	// scope attributes, severity, trace and span ids)
+	Extra map[string]string `json:"extra,omitempty"`
 }
 
 func genProtoPlan(r *rand.Rand, hours bool) *plan.Plan {
@@ -34,7 +37,7 @@ func genProtoPlan(r *rand.Rand, hours bool) *plan.Plan {
 	inc := plan.Incarnation{Boot: "full", SchedSeed: r.Uint64()>>11 | 1}
 	// the fake clock is moved to a known, odd instant first
 	inc.Ops = append(inc.Ops, plan.Op{Kind: "advance", DurMs: int64(1000 + r.IntN(90_000))*scale})
-	protos := []string{"es_bulk", "es_doc", "hec", "loki"}
+	protos := []string{"es_bulk", "es_doc", "hec", "loki", "otlp_logs"}
 	// short values that need JSON escapes (quote, backslash, newline, and the characters Go's encoder writes
 	// as \u00XX) next to plain and non-ASCII ones
 	msgs := []string{"hello world", "disk full", "GET /x?a=1&b=2", "ünïcode ✓", `say "hi"`, `C:\tmp\x`, "l1\nl2", "<b>&</b>", "tab\there"}
@@ -55,6 +58,14 @@ func genProtoPlan(r *rand.Rand, hours bool) *plan.Plan {
 			doc := map[string]any{"vid": ev.VID, "code": ev.Code, "msg": ev.Msg}
 			for k, v := range ev.Fields {
 				doc[k] = v
+			}
+			if r.IntN(2) == 0 {
+				// nested fields whose leaf key is the timestamp key (or another special-looking name) are ordinary
+				// fields: only the top-level key carries the event time
+				mt := fmt.Sprintf("mt-%d", r.IntN(1000))
+				doc["meta"] = map[string]any{"timestamp": mt, "id": "m" + ev.VID, "_index": "nx"}
+				doc["items"] = []any{map[string]any{"timestamp": mt + "-0", "n": "i0"}}
+				ev.Extra = map[string]string{"meta.timestamp": mt, "meta.id": "m" + ev.VID, "meta._index": "nx", "items.0.timestamp": mt + "-0", "items.0.n": "i0"}
 			}
 			if proto == "es_bulk" && r.IntN(5) == 0 {
 				// a Jaeger span document (index jaeger-*): its time is carried in startTimeMillis, there is no
@@ -85,10 +96,49 @@ func genProtoPlan(r *rand.Rand, hours bool) *plan.Plan {
 			for k, v := range ev.Fields {
 				evt[k] = v
 			}
+			if r.IntN(2) == 0 {
+				mt := fmt.Sprintf("mt-%d", r.IntN(1000))
+				evt["meta"] = map[string]any{"timestamp": mt, "time": "tm-" + mt}
+				evt["timestamp_note"] = "n-" + mt
+				ev.Extra = map[string]string{"event.meta.timestamp": mt, "event.meta.time": "tm-" + mt, "event.timestamp_note": "n-" + mt}
+			}
 			rec := map[string]any{"index": "p16", "event": evt, "sourcetype": "sim"}
 			if ev.Carried {
 				rec["time"] = float64(ev.TMs) / 1000
 				ev.Unit = "hec-time-seconds"
+			}
+			return ev, rec
+		case "otlp_logs":
+			attrs := map[string]string{"vid": ev.VID, "msg2": ev.Msg}
+			for k, v := range ev.Fields {
+				attrs[k] = v
+			}
+			rec := map[string]any{"attrs": attrs, "ints": map[string]int64{"code": int64(ev.Code)}, "body": ev.Msg}
+			ev.Extra = map[string]string{"attributes.msg2": ev.Msg}
+			if r.IntN(2) == 0 {
+				at := fmt.Sprintf("at-%d", r.IntN(1000))
+				attrs["timestamp"] = at
+				attrs["time_unix_nano"] = "tn-" + at
+				ev.Extra["attributes.timestamp"] = at
+				ev.Extra["attributes.time_unix_nano"] = "tn-" + at
+			}
+			if r.IntN(2) == 0 {
+				sev := []string{"WARN", "ERROR", "DEBUG2"}[r.IntN(3)]
+				rec["sev"] = sev
+				ev.Extra["severity_text"] = sev
+			}
+			if r.IntN(2) == 0 {
+				tid := fmt.Sprintf("%032x", r.Uint64())
+				sid := fmt.Sprintf("%016x", r.Uint64()|1)
+				rec["trace"], rec["span"] = tid, sid
+				ev.Extra["trace_id"], ev.Extra["span_id"] = tid, sid
+			}
+			if ev.Carried {
+				// nanosecond resolution below the millisecond is legal and must not disturb the stored millisecond;
+				// the observed time (when the collector saw the record) is a different instant and is never the event time
+				rec["t_ns"] = uint64(ev.TMs)*1_000_000 + uint64(r.IntN(1_000_000))
+				rec["obs_ns"] = uint64(ev.TMs+int64(3_600_000*(1+r.IntN(48))))*1_000_000
+				ev.Unit = "otlp-time-unix-nano"
 			}
 			return ev, rec
 		default: // loki
@@ -142,6 +192,33 @@ func genProtoPlan(r *rand.Rand, hours bool) *plan.Plan {
 				sb.WriteString("\n")
 			}
 			op = plan.Op{Kind: "http", Body: sb.String(), Args: map[string]any{"server": "ingest", "method": "POST", "path": "/services/collector/event"}}
+		case "otlp_logs":
+			// the records of one request are spread over 1-3 resource groups with different resource and scope
+			// attributes; a record must be stored with the attributes of its own group
+			ng := 1 + r.IntN(min(3, len(pieces)))
+			groups := make([]map[string]any, ng)
+			for gi := range groups {
+				res := map[string]string{"service.name": fmt.Sprintf("svc%d-%d", i, gi), "host": []string{"h1", "h2", `h"3`}[r.IntN(3)]}
+				if r.IntN(3) == 0 {
+					res["siglensIndexName"] = "p16"
+				}
+				groups[gi] = map[string]any{"res": res, "scope": fmt.Sprintf("lib%d", r.IntN(3)), "scope_ver": "1." + fmt.Sprint(r.IntN(9)),
+					"scope_attrs": map[string]string{"sk": fmt.Sprintf("sv%d", r.IntN(50))}, "split": r.IntN(3) == 0, "recs": []any{}}
+			}
+			for j, pc := range pieces {
+				gi := j % ng
+				g := groups[gi]
+				g["recs"] = append(g["recs"].([]any), pc)
+				res := g["res"].(map[string]string)
+				for k, v := range res {
+					evs[j].Extra["resource.attributes."+k] = v
+				}
+				evs[j].Extra["scope.name"] = g["scope"].(string)
+				evs[j].Extra["scope.version"] = g["scope_ver"].(string)
+				evs[j].Extra["scope.attributes.sk"] = g["scope_attrs"].(map[string]string)["sk"]
+			}
+			bb, _ := json.Marshal(map[string]any{"groups": groups})
+			op = plan.Op{Kind: "otlp_logs", Body: string(bb), Args: map[string]any{}}
 		case "loki":
 			bb, _ := json.Marshal(map[string]any{"streams": pieces})
 			op = plan.Op{Kind: "http", Body: string(bb), Args: map[string]any{"server": "ingest", "method": "POST", "path": "/loki/api/v1/push", "headers": map[string]any{"Content-Type": "application/json"}}}
@@ -196,20 +273,21 @@ func protoOracle(prop string, res *RunResult) []Violation {
 		if e == nil {
 			break
 		}
-		if _, ok := op.Args["event"]; ok && op.Kind == "http" {
+		if _, ok := op.Args["event"]; ok && (op.Kind == "http" || op.Kind == "otlp_logs") {
 			ems, _ := op.Args["events"].([]any)
 			if len(ems) == 0 {
 				ems = []any{op.Args["event"]}
 			}
 			var hr struct {
-				Status int `json:"status"`
+				Status   int   `json:"status"`
+				Rejected int64 `json:"rejected"` // OTLP partial success
 			}
 			_ = json.Unmarshal(e.Data, &hr)
 			for _, em := range ems {
 				eb, _ := json.Marshal(em)
 				var ev ProtoEvent
 				_ = json.Unmarshal(eb, &ev)
-				sents = append(sents, sent{ev: ev, lo: prevMs, hi: e.SimMs, accepted: hr.Status == 200 || hr.Status == 201, status: hr.Status})
+				sents = append(sents, sent{ev: ev, lo: prevMs, hi: e.SimMs, accepted: (hr.Status == 200 || hr.Status == 201) && hr.Rejected == 0, status: hr.Status})
 			}
 		}
 		if op.Kind == "query" && e.Err == "" {
@@ -224,7 +302,7 @@ func protoOracle(prop string, res *RunResult) []Violation {
 	}
 	find := func(vid string) map[string]interface{} {
 		for _, rec := range recs {
-			for _, key := range []string{"vid", "event.vid"} {
+			for _, key := range []string{"vid", "event.vid", "attributes.vid"} {
 				if v, ok := rec[key].(string); ok && v == vid {
 					return rec
 				}
@@ -247,6 +325,14 @@ func protoOracle(prop string, res *RunResult) []Violation {
 		if s.ev.Proto == "hec" {
 			prefix = "event."
 		}
+		if s.ev.Proto == "otlp_logs" {
+			prefix = "attributes."
+		}
+		for k, want := range s.ev.Extra {
+			if got, _ := rec[k].(string); got != want {
+				vs = append(vs, Violation{Sig: prop + ":" + cls + ":attribute-not-preserved:" + strings.SplitN(k, ".", 2)[0], Msg: fmt.Sprintf("%s %s: column %s expected %q got %v", cls, s.ev.VID, k, want, rec[k])})
+			}
+		}
 		for k, want := range s.ev.Fields {
 			if got, _ := rec[prefix+k].(string); got != want {
 				vs = append(vs, Violation{Sig: prop + ":" + cls + ":field-not-preserved", Msg: fmt.Sprintf("%s %s: field %s expected %q got %v", cls, s.ev.VID, prefix+k, want, rec[prefix+k])})
@@ -255,6 +341,9 @@ func protoOracle(prop string, res *RunResult) []Violation {
 		msgKey := prefix + "msg"
 		if s.ev.Proto == "loki" {
 			msgKey = "line"
+		}
+		if s.ev.Proto == "otlp_logs" {
+			msgKey = "body"
 		}
 		if got, _ := rec[msgKey].(string); got != s.ev.Msg {
 			vs = append(vs, Violation{Sig: prop + ":" + cls + ":message-not-preserved", Msg: fmt.Sprintf("%s %s: %s expected %q got %v", cls, s.ev.VID, msgKey, s.ev.Msg, rec[msgKey])})
